@@ -53,7 +53,8 @@ def runCase (c : Case) : String :=
   let evl := c.lines.filter (fun l => !(l.startsWith "monitor "))
   let parsed := evl.map parseLine
   if parsed.any Option.isNone then s!"case {c.id} reject 0 malformed-line" else
-  let ls := parsed.filterMap id
+  -- `co.*` lines belong to the coroutine/body layer (model `schedco`); the base model skips them
+  let ls := (parsed.filterMap id).filter (fun l => !(l.site.startsWith "co."))
   let nobj := ls.foldl (fun m l => max m l.obj) 0
   let monS := if mons.isEmpty && c.status == "ok" then "monitors ok"
     else "monitors FAIL: " ++ " | ".intercalate (mons ++ (if c.status == "ok" then [] else [s!"run ended with status '{c.status}'"]))
